@@ -32,6 +32,9 @@
 
 void rs_body(parsec_task_t *t, int cls, int k, int r, parsec_data_copy_t *copy, int modify);
 #define RS_BODY(T, CLS, K, R, COPY, MODIFY) rs_body((parsec_task_t *)(T), (CLS), (K), (R), (COPY), (MODIFY))
+/* classes with a second data flow B (READ): logged as a 'U' line next to the 'T' line of flow A */
+void rs_body2(parsec_task_t *t, int cls, int k, int r, parsec_data_copy_t *copy, int modify, parsec_data_copy_t *copyb);
+#define RS_BODY2(T, CLS, K, R, COPY, MODIFY, COPYB) rs_body2((parsec_task_t *)(T), (CLS), (K), (R), (COPY), (MODIFY), (COPYB))
 
 /* the arena/datatype of shape s (1..RS_NTYPES-1), built by the driver */
 parsec_arena_datatype_t *rs_adt(int s);
